@@ -76,18 +76,19 @@ TEnd ==
   /\ Ev.ev = "end" /\ ws = {} /\ ~Held
   /\ UNCHANGED vars
 
+\* the property, evaluated on every state the real runs went through - inside the step (an
+\* INVARIANT of a trace configuration makes TLC print the whole, very long, behaviour)
+Chk(name, ok) == IF ok THEN TRUE ELSE Print(<<"INVFAIL", name, l>>, FALSE)
+
 TNext ==
   /\ l <= Len(Rec) /\ l' = l + 1
   /\ \/ TReset \/ TRace \/ TRollback \/ TFailRoll \/ TDrop \/ TWait \/ TKill \/ TSkip \/ TEnd
   /\ IF "live" \in DOMAIN Ev THEN LiveOK ELSE TRUE
   /\ LockfileOK
+  /\ Chk("AtMostOneWriter", AtMostOneWriter') /\ Chk("LockFreeIffNoWriter", LockFreeIffNoWriter')
 
 TInit == Init /\ l = 1
 TSpec == TInit /\ [][TNext]_tvars
-
-\* the property, on every state the real runs went through
-InvAtMostOneWriter == AtMostOneWriter
-InvLockFreeIffNoWriter == LockFreeIffNoWriter
 
 Accepted ==
   IF TLCGet("stats").diameter - 1 = Len(Rec) THEN TRUE
